@@ -750,10 +750,10 @@ def traced_cases(rng, impl, n_objects, rays_per, nmax):
             before = len(rec.calls)
             try:
                 sp = ray.trace(world)
-            except IndexError as exc:
-                # the bounding primitive keeps every path inside the grid: an IndexError here is a finding
+            except Exception as exc:      # noqa: BLE001
+                # the bounding primitive keeps every path inside the grid: an IndexError (or anything else) here is a finding
                 g.setdefault("trace_errors", []).append({"origin_local": org, "dir_local": d, "step": step,
-                                                         "error": "IndexError: %s" % exc})
+                                                         "error": "%s: %s" % (type(exc).__name__, exc)})
                 del rec.calls[before:]
                 continue
             calls = rec.calls[before:]
@@ -829,7 +829,8 @@ def run(ctx):
     # ---- direct calls of the cpdef integrators --------------------------------------------------
     mask_checks, emission_lines, pre_fails, arg_forms, live_stats = [], [], [], {}, {}
     rejected = 0
-    for gi in range(n_grids):
+    def one_grid(gi):
+        nonlocal rejected
         kind = "cart" if gi % 2 == 0 else "cyl"
         exact = rng.random() < 0.6
         g = gen_grid(rng, kind, exact, not quick)
@@ -873,14 +874,18 @@ def run(ctx):
             g["cases"].append(c)
         if gi % 2 == 0 or not quick:
             g["cases"] += boundary_cases(rng, impl, g, mat, nmax, exact)
-        emission_lines += emission_cases(rng, impl, g, mat, exact)
+        emission_lines.extend(emission_cases(rng, impl, g, mat, exact))
         grids.append(g)
+    for gi in range(n_grids):
+        S.guard(pre_fails, "direct integrate() calls on one grid", {"grid_index": gi, "seed": ctx.seed}, one_grid, gi)
     # ---- histories on one live emitter + integrator (+ re-used spectrum) ------------------------------
     for li in range(8 if quick else 80):
         g0 = gen_grid(rng, "cart" if li % 2 == 0 else "cyl", rng.random() < 0.7, False)
-        grids += live_history(rng, impl, g0, nmax, g0["scale"] != 1.0 or rng.random() < 0.7, mask_checks, pre_fails, live_stats)
+        ent = S.guard(pre_fails, "history on one live emitter / integrator", {k: v for k, v in g0.items()},
+                      live_history, rng, impl, g0, nmax, g0["scale"] != 1.0 or rng.random() < 0.7, mask_checks, pre_fails, live_stats)
+        grids += ent or []
     # ---- calls made by the ray tracer through RayTransferBox / RayTransferCylinder ------------------
-    traced = traced_cases(rng, impl, 8 if quick else 60, 6 if quick else 12, nmax)
+    traced = S.guard(pre_fails, "rays traced through RayTransferBox / RayTransferCylinder", {"seed": ctx.seed}, traced_cases, rng, impl, 8 if quick else 60, 6 if quick else 12, nmax) or []
     grids += traced
 
     # ---- angular formula of the code against the exact sector decision ----------------------------
@@ -952,8 +957,10 @@ def run(ctx):
     # ---- emitters: state-machine histories and argument validation (model: Model/C10_Emitter.v) ----
     em_lines, em_dist = E.emitter_histories(rng, impl, 24 if quick else 240, lambda r, k, e, b: gen_grid(r, k, e, False, 0),
                                             variant_form, pre_fails)
-    val_lines = E.validation_cases(rng, impl, 40 if quick else 400)
-    aux_all = mask_checks + phi_cases + chord_cases + pipe_cases + emission_lines + em_lines + val_lines
+    val_lines = E.validation_cases(rng, impl, 40 if quick else 400, pre_fails)
+    offp_stats = {"rays": 0, "cells_compared": 0, "periodic": 0, "merged": 0, "traced_rays": 0}
+    offp_lines = E.offperiod_cases(rng, impl, 30 if quick else 300, S, pre_fails, offp_stats)
+    aux_all = mask_checks + phi_cases + chord_cases + pipe_cases + emission_lines + em_lines + val_lines + offp_lines
     # ---- translator: the numeric constants of the model regenerated from the current source + tie lemma ----
     try:
         consts_path = ctx.write_gen("Consts.v", E.translate_constants())
@@ -1003,8 +1010,10 @@ def run(ctx):
     good = good and len(zs) == len(aux_all)
     bad_aux = [i for i, z in enumerate(zs) if z == 0]
     ctx.obligation("correspondence maps_phi_*.v (%d mask/voxel-map setters, %d angular-formula points, %d exact Cartesian chords, "
-                   "%d pipeline histories, %d emission_function points, %d emitter histories, %d validation cases)"
-                   % (len(mask_checks), len(phi_cases), len(chord_cases), len(pipe_cases), len(emission_lines), len(em_lines), len(val_lines)),
+                   "%d pipeline histories, %d emission_function points, %d emitter histories, %d validation cases, "
+                   "%d emission points on grids with period on either side of 360/k)"
+                   % (len(mask_checks), len(phi_cases), len(chord_cases), len(pipe_cases), len(emission_lines), len(em_lines), len(val_lines),
+                      len(offp_lines)),
                    "correspondence", good and not bad_aux,
                    out[-1500:] if not good else "DISAGREE at %s" % bad_aux)
     n_calls = len(flat)
@@ -1017,6 +1026,10 @@ def run(ctx):
     stats.update(live_stats)
     stats["argument_forms"] = arg_forms
     stats["emitter_history_ops"] = em_dist
+    stats["period_classes(360/k: exact | user +-1e-4..9e-4 | n_polar*dphi rounding above / below)"] = offp_stats.get("period_classes", {})
+    stats["off_period_rays"] = offp_stats.get("off_period_rays", 0)
+    for kk in ("rays", "cells_compared", "merged"):
+        stats[kk] += offp_stats.get(kk, 0)
     order = sorted(range(n_calls), key=lambda i: (0 if i in set(diff) else 1, i))
     budget = len(order) if quick else min(len(order), 4000)
     for i in order[:budget]:
@@ -1024,7 +1037,10 @@ def run(ctx):
         g, c = grids[gi], grids[gi]["cases"][ci]
         if c["short"] or c["err"]:
             continue
-        fails += S.search_call(impl, g, c, rng, stats)
+        r_ = S.guard(fails, "executable property on one integrate() call",
+                     {"grid": {k: v for k, v in g.items() if k not in ("cases", "traces") and not k.startswith("_")},
+                      "call": {k: c[k] for k in ("class", "step", "min_samples", "m12", "p0", "p1")}}, S.search_call, impl, g, c, rng, stats)
+        fails += r_ or []
         if len(fails) > 20:
             break
     for g in traced:
@@ -1034,11 +1050,11 @@ def run(ctx):
                           "grid": {k: v for k, v in g.items() if k not in ("cases", "traces", "_mat_id", "_mat_vm", "trace_errors")},
                           "trace": te})
     # angular periods / sector sizes outside the model's table (search only)
-    fails += S.search_other_periods(impl, rng, 20 if quick else 200, stats)
+    fails += S.guard(fails, "search_other_periods", {"seed": ctx.seed}, S.search_other_periods, impl, rng, 20 if quick else 200, stats) or []
     # pipelines.py: matrix of a sight line = entries of its (single) ray
-    fails += S.search_second_order(impl, rng, 6 if quick else 40, stats, lambda r, k, e, b: gen_grid(r, k, e, b, 8))
-    fails += S.search_pipeline_api(pipe_hist, stats)
-    fails += S.search_pipeline_histories(impl, rng, 6 if quick else 40, stats, lambda r, k, e, b: gen_grid(r, k, e, b, 8))
+    fails += S.guard(fails, "search_second_order", {"seed": ctx.seed}, S.search_second_order, impl, rng, 6 if quick else 40, stats, lambda r, k, e, b: gen_grid(r, k, e, b, 8)) or []
+    fails += S.guard(fails, "search_pipeline_api", {"seed": ctx.seed}, S.search_pipeline_api, pipe_hist, stats) or []
+    fails += S.guard(fails, "search_pipeline_histories", {"seed": ctx.seed}, S.search_pipeline_histories, impl, rng, 6 if quick else 40, stats, lambda r, k, e, b: gen_grid(r, k, e, b, 8)) or []
     for i in bad_aux:
         if len(mask_checks) + len(phi_cases) <= i < len(mask_checks) + len(phi_cases) + len(chord_cases):
             ctx.broken.append("model chord_cart differs from the harness's exact cut: " + chord_cases[i - len(mask_checks) - len(phi_cases)][:400])
